@@ -627,8 +627,8 @@ func post_Counters_All_complete(s *Counters, res0 []Counter) bool {
 // key is as it was (so a subscriber reached through two matching filters is there ONCE) - for sets of any size
 // (loop invariant over the keys the range has visited; unbounded). With a filter the loop calls an unknown
 // function per member: not under this contract.
-//@ verify (*Subscribers).AddRange pre=pre_AddRange post=post_AddRange_union,post_AddRange_others props=C01
-//@ loop (*Subscribers).AddRange 0 inv inv_AddRange_union,inv_AddRange_others modifies=* for=AddRange
+// @ verify (*Subscribers).AddRange pre=pre_AddRange post=post_AddRange_union,post_AddRange_others props=C01
+// @ loop (*Subscribers).AddRange 0 inv inv_AddRange_union,inv_AddRange_others modifies=* for=AddRange
 func pre_AddRange(s *Subscribers, from Subscribers, filter func(s Subscriber) bool) bool {
 	return s != nil && *s != nil && from != nil && filter == nil && !vs.SameMap(*s, from)
 }
